@@ -651,9 +651,16 @@ impl C12 {
                 let cancel = if sticky { Cancel::Sticky(k) } else { Cancel::Transient(k) };
                 let mut session = Session::new(c.u.clone(), &sc.rt, None);
                 session.provider().union_iter_unbounded.set(unbounded);
+                // every other index: once the provider has signalled cancellation it completes
+                // nothing any more ("promptly" must not depend on outstanding requests)
+                let frozen = k % 2 == 1 && session.sched.is_some();
+                session.provider().freeze_on_cancel.set(frozen);
                 let res = session.solve(&c.problem, cancel, false, false);
                 rep.evaluations += 1;
-                let what = format!("cancellation {cancel:?} (undisturbed run makes {total} polls)");
+                let what = format!(
+                    "cancellation {cancel:?}{} (undisturbed run makes {total} polls)",
+                    if frozen { ", after which the provider completes nothing" } else { "" }
+                );
                 let fired: Vec<(usize, u64, usize)> = res
                     .log
                     .iter()
@@ -732,7 +739,7 @@ impl C12 {
     }
 }
 
-struct_property!(C12, "C12", "tape -> universe + problem (+ soft) + runtime (sync or generated async schedule); a dry run counts the P polls of should_cancel_with_value, then cancellation is INJECTED at poll index k for every k in [0,P) (quick: at most 48 indices per case incl. the first and last 8; thorough: all) in two modes: transient (fires only at poll k) and sticky (fires from k on). Each injected run must return Cancelled carrying exactly the value the provider returned (transient: k; sticky: a returned value >= k), never Ok/Unsolvable, and no get_candidates / get_dependencies may start after the cancellation was signalled. Non-trivial: an injection at k>=3, or with provider requests in flight, or during a soft requirement's run. Distinct = distinct hash of case; evaluations = number of solver runs.");
+struct_property!(C12, "C12", "(asynchronous runs, every other poll index: the provider completes nothing once it has signalled cancellation) tape -> universe + problem (+ soft) + runtime (sync or generated async schedule); a dry run counts the P polls of should_cancel_with_value, then cancellation is INJECTED at poll index k for every k in [0,P) (quick: at most 48 indices per case incl. the first and last 8; thorough: all) in two modes: transient (fires only at poll k) and sticky (fires from k on). Each injected run must return Cancelled carrying exactly the value the provider returned (transient: k; sticky: a returned value >= k), never Ok/Unsolvable, and no get_candidates / get_dependencies may start after the cancellation was signalled. Non-trivial: an injection at k>=3, or with provider requests in flight, or during a soft requirement's run. Distinct = distinct hash of case; evaluations = number of solver runs.");
 
 // =============================================================================== C13
 
@@ -782,6 +789,12 @@ impl C13 {
         problems.extend(sc.more.iter().cloned());
         let gated = matches!(sc.rt, Runtime::Async { .. });
         let mut session = Session::new(c.u.clone(), &sc.rt, None);
+        // a third of the histories: the provider's sort_candidates re-enters the cache
+        let reentrant = hash_of(&(&c.problem, sc.more.len(), c.u.vsets.len())) % 3 == 0;
+        if reentrant {
+            session.provider().probe.set(crate::provider::SortProbe::Deps);
+            rep.labels.push("re-entrant-sort");
+        }
         let mut model = FetchModel::new();
         let mut prev_kind: Option<&'static str> = None;
         let mut touched_again = false;
@@ -791,9 +804,20 @@ impl C13 {
             let sticky = sc.extra.get(2 * i + 1).copied().unwrap_or(0) == 1;
             let cancel = match cancel_raw {
                 0 => Cancel::Never,
+                // (no cancellation with the re-entrant provider: the poll that fires may be one
+                // made on behalf of the provider's own nested call, whose error sort_candidates
+                // cannot hand back - the solver then never observes it)
+                _ if reentrant => Cancel::Never,
                 k if sticky => Cancel::Sticky(k as u64 - 1),
                 k => Cancel::Transient(k as u64 - 1),
             };
+            // a provider that cancels stops serving: what is outstanding then never completes;
+            // it serves again for the next call
+            let freeze = gated && !reentrant && cancel != Cancel::Never && cancel_raw % 2 == 0;
+            session.provider().freeze_on_cancel.set(freeze);
+            if let Some(s) = &session.sched {
+                s.frozen.set(false);
+            }
             let Some(expected) = hard_verdict(c, p) else {
                 rep.skipped = Some("reference-budget");
                 return;
@@ -863,4 +887,4 @@ impl C13 {
     }
 }
 
-struct_property!(C13, "C13", "tape -> universe + HISTORY of 2..5 solve calls on ONE solver (same or different problems incl. soft requirements, sat and unsat, optional cancellation injected at a generated poll index in transient or sticky mode, sync or async with a generated completion order so cancellation happens while requests are in flight, mixed hints). Each step must terminate (deadlock / step budget), return Cancelled iff cancellation fired, otherwise the reference verdict of that step's problem with a solution that passes the C01 predicate; no get_candidates / get_dependencies key that COMPLETED in an earlier step may be requested again. Non-trivial: a later step runs after metadata was fetched by an earlier one, or follows a cancelled / unsat step. Distinct = distinct hash of case.");
+struct_property!(C13, "C13", "tape -> universe + HISTORY of 2..5 solve calls on ONE solver (same or different problems incl. soft requirements, sat and unsat, optional cancellation injected at a generated poll index in transient or sticky mode, sync or async with a generated completion order so cancellation happens while requests are in flight, mixed hints; in half of the cancelled asynchronous steps the provider completes nothing once it has signalled cancellation and serves again for the next call; in a third of the histories the provider's sort_candidates re-enters the SolverCache). Each step must terminate (deadlock / step budget), return Cancelled iff cancellation fired, otherwise the reference verdict of that step's problem with a solution that passes the C01 predicate; no get_candidates / get_dependencies key that COMPLETED in an earlier step may be requested again. Non-trivial: a later step runs after metadata was fetched by an earlier one, or follows a cancelled / unsat step. Distinct = distinct hash of case.");
